@@ -342,6 +342,23 @@ Ctl(cx, R, t, v, vis) ==
           a.ok /\ (LET vv == IF a.v.k = "int" /\ AsInt(cx, v).ok THEN [k |-> "int", neg |-> AsInt(cx, v).neg, mag |-> AsInt(cx, v).mag] ELSE v
                        c == NumCmp(vv, a.v) IN
                    c # 2 /\ (CASE t.op = "lt" -> c < 0 [] t.op = "le" -> c <= 0 [] t.op = "gt" -> c > 0 [] t.op = "ge" -> c >= 0)))
+    \* RFC 9165 2.2 / 2.1: both operands denote single values (literals, possibly through aliases / parentheses);
+    \* the control denotes the single value computed from them, of the kind of the LEFT operand
+    [] t.op = "cat" ->
+         (LET a == LitOf(R, t.t, 4)  b == LitOf(R, t.arg, 4) IN
+          a.ok /\ b.ok /\ a.v.k \in {"text", "bytes"} /\ b.v.k \in {"text", "bytes"} /\
+          IF a.v.k = "text" THEN
+             \* text target: the controller's bytes must themselves be UTF-8; the fragment only generates text controllers here
+             b.v.k = "text" /\ LitMatch(cx, [k |-> "text", cp |-> a.v.cp \o b.v.cp], v)
+          ELSE v.k = "bytes" /\ v.bs = a.v.bs \o (IF b.v.k = "bytes" THEN b.v.bs ELSE Utf8Enc(b.v.cp)))
+    [] t.op = "plus" ->
+         (LET a == LitOf(R, t.t, 4)  b == LitOf(R, t.arg, 4) IN
+          a.ok /\ b.ok /\ a.v.k = "int" /\ b.v.k = "int" /\ Small(a.v.mag) # -1 /\ Small(b.v.mag) # -1 /\
+          LET sv(x) == IF x.neg THEN (0 - 1) - Small(x.mag) ELSE Small(x.mag)
+              s == sv(a.v) + sv(b.v)
+              r == IF s < 0 THEN [k |-> "int", neg |-> TRUE, mag |-> NatOfSmall((0 - 1) - s)]
+                   ELSE [k |-> "int", neg |-> FALSE, mag |-> NatOfSmall(s)]
+          IN LitMatch(cx, r, v))
     [] t.op = "eq" -> M1(cx, R, t.t, v, vis) /\ (LET a == LitOf(R, t.arg, 4) IN a.ok /\ LitMatch(cx, a.v, v))
     [] t.op = "ne" -> M1(cx, R, t.t, v, vis) /\ (LET a == LitOf(R, t.arg, 4) IN a.ok /\ ~LitMatch(cx, a.v, v))
     [] OTHER -> FALSE
